@@ -371,6 +371,83 @@ pub fn run(ctx: &'static Ctx) {
         ctx.engine("E3.hmat-constructor-arguments", json!({"programs": n, "what": "4 locality types x 6 data types x 12 transfer sizes x {untouched, one cell, all but one cell, lists+option} on a 2x3 structure"}));
     }
 
+    // ---- cell values (E3, the value principle): every 16-bit value in a cell of a fresh structure; followed by an ordinary
+    // value in another cell; preceded by one; overwritten by its neighbour value — a storage scheme that treats one value
+    // specially (a sentinel, a narrow representation) is met at that value. Initiator / target ids through util::value_set.
+    {
+        use rayon::prelude::*;
+        let f = Fill::b(2);
+        let n = AtomicU64::new(0);
+        let shapes: [(usize, usize); 3] = [(1, 1), (2, 2), (2, 3)];
+        (0..=0xffffu32).into_par_iter().for_each(|v| {
+            let v = v as u16;
+            for (ni, nt) in shapes {
+                let (li, lj) = ((ni - 1) as u8, (nt - 1) as u8);
+                let mut progs: Vec<Vec<HOp>> = vec![vec![HOp::Cell(0, 0, v)], vec![HOp::Cell(0, 0, v), HOp::Cell(0, 0, v ^ 1)], vec![HOp::Cell(0, 0, v ^ 1), HOp::Cell(0, 0, v)]];
+                if ni * nt > 1 {
+                    progs.push(vec![HOp::Cell(0, 0, v), HOp::Cell(li, lj, 0x1234)]);
+                    progs.push(vec![HOp::Cell(li, lj, 0x1234), HOp::Cell(0, 0, v)]);
+                    progs.push(vec![HOp::Cell(li, lj, v), HOp::Cell(0, 0, 0x00fe), HOp::Cell(0, lj, 0x0100)]);
+                }
+                for ops in progs {
+                    n.fetch_add(1, std::sync::atomic::Ordering::Relaxed);
+                    let want = hmat_model(&f, ni, nt, &ops);
+                    match hmat_real(&f, ni, nt, &ops) {
+                        Ok((img, table)) => {
+                            if img != want || sum8(&table) != 0 {
+                                let d = crate::util::first_diff(&img, &want).unwrap_or(0);
+                                ctx.violation_sized(
+                                    "hmat:cell:value",
+                                    v as u64,
+                                    || format!("HMAT locality {}x{} after {:?}: differs from the last-writer reference at byte {}: {} | {}", ni, nt, ops, d, hex(&img[d.min(img.len())..(d + 8).min(img.len())]), hex(&want[d.min(want.len())..(d + 8).min(want.len())])),
+                                    || json!({"family":"hmat-sll","initiators":ni,"targets":nt,"ops":format!("{:?}", ops)}),
+                                );
+                            }
+                        }
+                        Err(m) => {
+                            ctx.violation_sized("hmat:refused:value", v as u64, || format!("HMAT locality {}x{} refused {:?}: {}", ni, nt, ops, m), || json!({"family":"hmat-sll","initiators":ni,"targets":nt,"ops":format!("{:?}", ops)}));
+                        }
+                    }
+                }
+            }
+        });
+        let ids = crate::util::value_set(32, 0x0403_0201, quick);
+        ids.par_iter().for_each(|v| {
+            let v = *v as u32;
+            for ops in [vec![HOp::Init(0, v)], vec![HOp::Tgt(1, v)], vec![HOp::Init(1, v), HOp::Tgt(0, v), HOp::Cell(1, 1, v as u16)], vec![HOp::Init(0, v), HOp::Init(0, !v), HOp::Tgt(1, !v), HOp::Tgt(1, v)]] {
+                n.fetch_add(1, std::sync::atomic::Ordering::Relaxed);
+                let want = hmat_model(&f, 2, 2, &ops);
+                match hmat_real(&f, 2, 2, &ops) {
+                    Ok((img, table)) if img == want && sum8(&table) == 0 => {}
+                    other => {
+                        ctx.violation_sized("hmat:list:value", v as u64, || format!("HMAT locality 2x2 after {:?}: {}", ops, match &other { Ok((img, _)) => format!("structure {} ; reference {}", hex(img), hex(&want)), Err(m) => format!("refused: {}", m) }), || json!({"family":"hmat-sll","initiators":2,"targets":2,"ops":format!("{:?}", ops)}));
+                    }
+                }
+            }
+        });
+        // SLIT: every distance value in a cell, alone, overwritten, and beside every other value in the mirrored pair
+        let sn = AtomicU64::new(0);
+        (0..=255u16).into_par_iter().for_each(|v| {
+            let v = v as u8;
+            for w in 0..=255u8 {
+                for (l, ops) in [(2u32, vec![(0u16, 1u16, v), (1, 0, w)]), (3, vec![(0, 2, v), (1, 1, w), (2, 0, w)]), (3, vec![(1, 2, v), (1, 2, w), (0, 0, v)])] {
+                    sn.fetch_add(1, std::sync::atomic::Ordering::Relaxed);
+                    let want = slit_model(l as usize, &ops);
+                    match slit_real(l, &ops) {
+                        Ok(img) if img.len() == 44 + want.len() && img[44..] == want[..] && sum8(&img) == 0 => {}
+                        other => {
+                            ctx.violation_sized("slit:cell:value", v as u64 * 256 + w as u64, || format!("SLIT L={} after {:?}: {}", l, ops, match &other { Ok(img) => format!("matrix {} ; reference {}", hex(&img[44.min(img.len())..]), hex(&want)), Err(m) => format!("refused: {}", m) }), || json!({"family":"slit","L":l,"ops":format!("{:?}", ops)}));
+                        }
+                    }
+                }
+            }
+        });
+        let total = n.load(std::sync::atomic::Ordering::Relaxed) + sn.load(std::sync::atomic::Ordering::Relaxed);
+        ctx.st(total);
+        ctx.tr(total);
+        ctx.engine("E3.cell-values", json!({"hmat_programs": n.load(std::sync::atomic::Ordering::Relaxed), "slit_programs": sn.load(std::sync::atomic::Ordering::Relaxed), "hmat_cell_values": "all 65536 on 1x1, 2x2, 2x3 in six program forms", "hmat_ids": ids.len(), "slit_values": "all 256 x 256 pairs in three program forms"}));
+    }
+
     // ---- shape sweeps (E3): every shape of a grid, one program each: every cell assigned a distinct value in
     // row-major, column-major or reverse order, then three cells overwritten; the whole matrix is compared after the
     // fill and after the overwrites. Sizes and cell counts cross 256, 512 and 1024.
